@@ -59,3 +59,59 @@ func (r *Rng) Pick(xs []int) int { return xs[r.Intn(len(xs))] }
 
 // Fork derives an independent generator (for per-case replay).
 func (r *Rng) Fork() *Rng { return &Rng{s: r.U64()} }
+
+// genData returns lo..hi bytes of option payload: half of the time random bytes,
+// otherwise one of the spellings that code "tidying up" a value trips over - text
+// with trailing or leading NULs, NULs only, trailing blanks / dots / line ends,
+// all ones, bytes above 0x7f (valid and invalid UTF-8), a numeric vendor prefix.
+// (seeded change C02-12: a decoder trimming trailing NULs off a status message)
+func genData(r *Rng, lo, hi int) []byte {
+	n := r.Range(lo, hi)
+	if r.Bool() {
+		return r.Bytes(n)
+	}
+	text := func(k int) []byte {
+		b := make([]byte, k)
+		for i := range b {
+			b[i] = "abcxyzABC019-_/:."[r.Intn(17)]
+		}
+		return b
+	}
+	var b []byte
+	switch r.Intn(10) {
+	case 0:
+		b = text(n)
+	case 1:
+		k := r.Range(1, 3)
+		b = append(text(max(n-k, 0)), make([]byte, k)...)
+	case 2:
+		b = append([]byte{0}, text(max(n-1, 0))...)
+	case 3:
+		b = make([]byte, n)
+	case 4:
+		b = append(text(max(n-1, 0)), " \t\n\r."[r.Intn(5)])
+	case 5:
+		b = make([]byte, n)
+		for i := range b {
+			b[i] = 0xff
+		}
+	case 6:
+		b = []byte("d\u00e9p\u00f4t\u2603")
+	case 7:
+		b = append(text(max(n-2, 0)), 0xe9, 0xfd)
+	case 8:
+		b = append([]byte("1271-"), text(max(n-5, 0))...)
+	default:
+		b = text(n)
+		if len(b) > 1 {
+			b[r.Intn(len(b))] = 0
+		}
+	}
+	if len(b) > hi {
+		b = b[:hi]
+	}
+	for len(b) < lo {
+		b = append(b, 0)
+	}
+	return b
+}
